@@ -1926,7 +1926,7 @@ func (x *Exec) checkLoopInv(st *State, fr *Frame, head *ssa.BasicBlock, phase st
 			continue // [slow]: proved in the thorough tier, assumed (and listed) in the quick tier
 		}
 		t := x.evalBool(env, inv.Expr, inv)
-		name := fmt.Sprintf("%s/loop%d-inv#%d-%s", funcKey(fr.fn, x.pkg.Pkg), k, inv.Ord, phase)
+		name := fmt.Sprintf("%s/loop%d-inv#%d-%s", x.loopOwner(st, fr), k, inv.Ord, phase)
 		x.oblige(st, name, "invariant", inv.Tags, t, blockPos(head), "loop invariant ("+phase+"): "+inv.Src)
 	}
 	if dec := c.LoopDec[k]; dec != nil && phase == "preserve" && cut != nil && cut.variant != nil {
@@ -1938,7 +1938,7 @@ func (x *Exec) checkLoopInv(st *State, fr *Frame, head *ssa.BasicBlock, phase st
 		} else {
 			goal = app(sBool, nil, "bvult", v, v0)
 		}
-		name := fmt.Sprintf("%s/loop%d-decreases", funcKey(fr.fn, x.pkg.Pkg), k)
+		name := fmt.Sprintf("%s/loop%d-decreases", x.loopOwner(st, fr), k)
 		x.oblige(st, name, "variant", dec.Tags, goal, blockPos(head), "loop variant decreases and is bounded below: "+dec.Src)
 	}
 }
@@ -2592,4 +2592,13 @@ func mentionedGlobals(fn *ssa.Function) []string {
 	}
 	sort.Strings(out)
 	return out
+}
+
+// loopOwner names the contract a loop obligation belongs to: the contract under verification (scenario suffix
+// included) for the function's own loops, the literal's name for loops of an inlined function literal.
+func (x *Exec) loopOwner(st *State, fr *Frame) string {
+	if len(st.frames) > 0 && st.frames[0] == fr && x.curFunc != "" {
+		return x.curFunc
+	}
+	return funcKey(fr.fn, x.pkg.Pkg)
 }
